@@ -86,6 +86,11 @@ type readerIssue struct {
 // readLoop: open+read the path in a tight loop until stop() says so. Every successful read must
 // parse and equal some complete version; versions never go backwards.
 func readLoop(path string, digests map[string]int, stop func() bool, progress *atomic.Int64) readerReport {
+	return readLoopOrd(path, digests, stop, progress, true)
+}
+
+// readLoopOrd: ordered=false when several savers write the path (versions then interleave).
+func readLoopOrd(path string, digests map[string]int, stop func() bool, progress *atomic.Int64, ordered bool) readerReport {
 	rep := readerReport{Versions: map[int]int{}, OpenErrors: map[string]int{}}
 	rawSeen := map[[32]byte]int{}
 	last := -1
@@ -136,7 +141,7 @@ func readLoop(path string, digests map[string]int, stop func() bool, progress *a
 			rawSeen[raw] = v
 		}
 		rep.Versions[v]++
-		if v < last {
+		if ordered && v < last {
 			issue("version-went-backwards", fmt.Sprintf("read V%d after V%d", v, last))
 		}
 		last = v
@@ -310,6 +315,107 @@ func runConcurrentReaders(res *evid.Result) {
 	}
 	sort.Ints(vs)
 	res.Sample(map[string]any{"part": "d1", "versions_saved": nVer, "goroutine_reads": reports["goroutine"].Reads, "process_reads": reports["process"].Reads, "first_versions_seen_by_goroutine": vs[:min(12, len(vs))]})
+}
+
+// runConcurrentSavers (d1b): several scanners (goroutines of one process, as two `sfw index`
+// runs or two goroutines of a service would be) save their own versions to ONE path at the same
+// time while a reader polls it. Every save must succeed, every read must be one complete
+// version of one of the savers, the final content is a complete version, nothing is left over.
+func runConcurrentSavers(res *evid.Result) {
+	dir := filepath.Join(evid.Scratch(), "d1b")
+	os.MkdirAll(dir, 0o755)
+	defer os.RemoveAll(dir)
+	path := filepath.Join(dir, "signatures.json")
+	nSavers, perSaver, rounds := 3, 8, evid.Pick(12, 60)
+	digests := map[string]int{}
+	scs := make([][]*jsondb.Scanner, nSavers)
+	for w := 0; w < nSavers; w++ {
+		for k := 0; k < perSaver; k++ {
+			i := 5000 + w*perSaver + k
+			var back detection.SignatureDatabase
+			b, _ := json.Marshal(genVersion(i))
+			json.Unmarshal(b, &back)
+			digests[digest(back)] = i
+			sc, err := loadVersion(i, filepath.Join(dir, fmt.Sprintf("load%d.tmpfile", w)))
+			if err != nil {
+				res.Broken = "cannot prepare version: " + err.Error()
+				return
+			}
+			scs[w] = append(scs[w], sc)
+		}
+	}
+	if err := scs[0][0].SaveDatabase(path); err != nil {
+		res.Violate("save/error", "initial save failed: "+err.Error(), nil)
+		return
+	}
+	var stop atomic.Bool
+	var prog atomic.Int64
+	done := make(chan readerReport, 1)
+	go func() { done <- readLoopOrd(path, digests, stop.Load, &prog, false) }()
+	for prog.Load() == 0 {
+		syscall.Nanosleep(&syscall.Timespec{Nsec: 1e6}, nil)
+	}
+	type saveErr struct {
+		w, k int
+		err  error
+	}
+	errs := make(chan saveErr, nSavers*perSaver*rounds)
+	fin := make(chan struct{}, nSavers)
+	var saves atomic.Int64
+	for w := 0; w < nSavers; w++ {
+		go func(w int) {
+			defer func() { fin <- struct{}{} }()
+			for r := 0; r < rounds; r++ {
+				for k, sc := range scs[w] {
+					if err := sc.SaveDatabase(path); err != nil {
+						errs <- saveErr{w, k, err}
+					}
+					saves.Add(1)
+				}
+			}
+		}(w)
+	}
+	for w := 0; w < nSavers; w++ {
+		<-fin
+	}
+	stop.Store(true)
+	rep := <-done
+	close(errs)
+	res.Eval(int(saves.Load()))
+	res.Count("concurrent_saves", int(saves.Load()))
+	res.Count("reader_during_concurrent_saves_reads", rep.Reads)
+	res.Count("reader_during_concurrent_saves_versions_seen", len(rep.Versions))
+	res.Distinct(fmt.Sprintf("save:concurrent-savers:%d", nSavers))
+	nerr := 0
+	for e := range errs {
+		nerr++
+		if nerr <= 3 {
+			res.Violate("save/concurrent-savers/error", fmt.Sprintf("SaveDatabase of saver %d (its version #%d) failed although nothing was wrong with the file system: %v", e.w, e.k, e.err), map[string]any{"savers": nSavers})
+		}
+	}
+	for _, p := range rep.Problems {
+		res.Violate("save/concurrent-savers/reader/"+p.Kind, fmt.Sprintf("read #%d while %d savers were saving: %s", p.Read, nSavers, p.Detail), map[string]any{"savers": nSavers})
+	}
+	fb, err := os.ReadFile(path)
+	var last detection.SignatureDatabase
+	if err == nil {
+		err = json.Unmarshal(fb, &last)
+	}
+	res.Eval(1)
+	if _, ok := digests[digest(last)]; err != nil || !ok {
+		res.Violate("save/concurrent-savers/final-content", fmt.Sprintf("after all savers finished the file is no complete version of any of them (%v)", err), nil)
+	}
+	ents, _ := os.ReadDir(dir)
+	for _, e := range ents {
+		if e.Name() != "signatures.json" {
+			res.Violate("save/concurrent-savers/file-left-behind", fmt.Sprintf("after all savers finished %q is left next to the database", e.Name()), nil)
+			break
+		}
+	}
+	if rep.Reads < 100 {
+		res.Inconcl(1)
+		res.Count("concurrent_savers_reader_overlap_small", 1)
+	}
 }
 
 // ---------------------------------------------------------------- strace
